@@ -52,9 +52,25 @@ type Contract struct {
 	Panics   []Clause // panics when <cond>
 	Asserts  []AtAssert
 	Snaps    []Track  // snapshot <name> after call <callee>
+	GhostVars []GhostVar
+	OnCalls   []OnCall
 	Callees  map[string]*Contract // assumed contracts of dynamic callees (function-typed fields, parameters), by source name
 	Params   []string // explicit parameter names (trusted specs for functions without source names)
 	Used     bool
+}
+
+// GhostVar is a specification-only variable of the unit, updated by OnCall rules.
+type GhostVar struct {
+	Name string
+	Type string
+	Init Expr
+}
+
+// OnCall: after every call of Callee made by the unit, Var := E (E may use $i arguments, result, and ghost variables).
+type OnCall struct {
+	Callee string
+	Var    string
+	E      Expr
 }
 
 // AtAssert: a ghost assertion attached to every call of a named callee inside the function.
@@ -111,7 +127,7 @@ var clauseKeywords = map[string]bool{
 	"func": true, "fun": true, "pred": true, "requires": true, "ensures": true, "modifies": true, "pure": true,
 	"ghost": true, "loop": true, "nopanic": true, "trusted": true, "panics": true, "track": true, "global-invariant": true,
 	"monitor": true, "invariant": true, "transition": true, "lemma": true, "axiom": true, "inline": true, "assert": true,
-	"props": true, "params": true, "protects": true, "snapshot": true, "abstract": true, "callee": true,
+	"props": true, "params": true, "protects": true, "snapshot": true, "abstract": true, "callee": true, "ghostvar": true, "on": true,
 }
 
 type rawClause struct {
@@ -390,6 +406,38 @@ func (db *SpecDB) LoadSpecFile(path, pkgPath string) error {
 					return fmt.Errorf("%s:%d: %v", path, rc.line, err)
 				}
 				cur.Ghosts = append(cur.Ghosts, GhostDef{strings.TrimSpace(rc.rest[:i]), e})
+			case "ghostvar":
+				// ghostvar <name> <type> = <expr>
+				i := strings.Index(rc.rest, "=")
+				if i < 0 {
+					return fmt.Errorf("%s:%d: ghostvar needs '<name> <type> = <init>'", path, rc.line)
+				}
+				fs := strings.Fields(rc.rest[:i])
+				if len(fs) != 2 {
+					return fmt.Errorf("%s:%d: ghostvar needs '<name> <type> = <init>'", path, rc.line)
+				}
+				e, err := ParseExpr(rc.rest[i+1:])
+				if err != nil {
+					return fmt.Errorf("%s:%d: %v", path, rc.line, err)
+				}
+				cur.GhostVars = append(cur.GhostVars, GhostVar{Name: fs[0], Type: fs[1], Init: e})
+			case "on":
+				// on call <callee>: <var> = <expr>
+				rest := strings.TrimSpace(rc.rest)
+				if !strings.HasPrefix(rest, "call ") {
+					return fmt.Errorf("%s:%d: expected 'on call <callee>: var = expr'", path, rc.line)
+				}
+				rest = rest[5:]
+				i := strings.Index(rest, ":")
+				j := strings.Index(rest, "=")
+				if i < 0 || j < i {
+					return fmt.Errorf("%s:%d: expected 'on call <callee>: var = expr'", path, rc.line)
+				}
+				e, err := ParseExpr(rest[j+1:])
+				if err != nil {
+					return fmt.Errorf("%s:%d: %v", path, rc.line, err)
+				}
+				cur.OnCalls = append(cur.OnCalls, OnCall{Callee: strings.TrimSpace(rest[:i]), Var: strings.TrimSpace(rest[i+1 : j]), E: e})
 			case "callee":
 				// callee <name>: pure | ensures <expr> | modifies <targets>
 				i := strings.Index(rc.rest, ":")
